@@ -13,6 +13,9 @@ cp /verif/known_findings.json "$tmp/root/" 2>/dev/null
 grep -rl '/repo' "$tmp/harness" --include=*.rs --include=*.toml | xargs -r sed -i "s#/repo#$wt#g"
 sed -i "s#target-dir = .*#target-dir = \"${MT_TARGET:-$tmp/target}\"#" "$tmp/harness/.cargo/config.toml"
 cp "$wt/Cargo.lock" /dev/null 2>&1
+# anyhow captures a backtrace for every error value when RUST_BACKTRACE is set: that serialises all
+# worker threads on the unwinder lock (measured: 4x slower); panics are located by the panic hook instead
+export RUST_BACKTRACE=0 RUST_LIB_BACKTRACE=0
 export CARGO_NET_OFFLINE=true VERIF_ROOT="$tmp/root" CARGO_TARGET_DIR="${MT_TARGET:-$tmp/target}"
 unset RUSTFLAGS
 cd "$tmp/harness" || exit 2
